@@ -200,6 +200,24 @@ package raft
 //@     invariant 0 <= i && (dbh.keep >= 0 ==> i <= dbh.keep) && len(backups) == i && !isnil(backups) && (forall j int :: 0 <= j && j < i ==> backups[j] == bname(dbh, j) && in(backups[j], fs))
 //@   modifies nothing
 
+// assumed (naming): the names of the rotated backups of a folder differ from each other and from the folder's own name
+//@ spec func backupNamesDistinct() bool = forall b string, f string :: (forall i int, j int :: i != j ==> uf("backupName", "string", b, f, i) != uf("backupName", "string", b, f, j)) && (forall i int :: uf("backupName", "string", b, f, i) != uf("join2", "string", b, f))
+// what the data folder holds is looked up through hashicorp/raft's snapshot store (library; results unconstrained)
+//@ func latestSnapshot
+//@   property C14
+//@   ensures [an-error-is-not-an-empty-folder] err != nil ==> res1 == nil
+//@   modifies nothing
+
+// "cleaning Raft data which holds a snapshot keeps it recoverable": the data folder is deleted outright only when the
+// snapshot store positively reported that it holds no snapshot; in every other case - also when the newest snapshot
+// could not be opened - it goes through the backup rotation
+//@ func CleanupRaft
+//@   property C14 C17
+//@   requires cfg != nil && cfg.BackupsRotate >= 1 && backupNamesDistinct()
+//@   at_call os.RemoveAll assert [only-a-folder-without-snapshots-is-deleted-outright] meta == nil && err == nil
+//@   ensures [never-fails] res1 == nil
+//@   modifies fs, fsContent, heap(dataBackupHelper)
+
 // "keeps it recoverable as the newest of at most N rotated backups, older backups shifting by one and only the oldest being discarded"
 //@ func (dbh *dataBackupHelper) makeBackup
 //@   property C14 C17
@@ -298,7 +316,12 @@ package raft
 // ---- C18: "shutting a component down while it is in use": the shutdown flag is only read and written with the
 // shutdown lock held, so that concurrent Shutdown calls run the teardown once ----
 //@ guards Consensus.shutdownLock: shutdown
+// (C17: "a removed peer stops itself and discards its consensus data": whatever the teardown steps report, Shutdown
+// ends with the component marked shut down - Clean() refuses to discard the data of a component that is not)
+//@ fnvalue Consensus.cancel()
+//@   modifies nothing
 //@ func (cc *Consensus) Shutdown
-//@   property C18
+//@   property C18 C17
 //@   opts own
+//@   ensures [ends-shut-down] cc.shutdown
 //@   modifies *
